@@ -33,6 +33,16 @@ def main():
                     continue
             except Exception:
                 pass
+        try:
+            meta0 = json.load(open(os.path.join(d, "meta.json")))
+        except Exception:
+            meta0 = {}
+        if "superseded" in meta0:
+            # the defect the change was built on has been repaired since: the edited code path is gone
+            rows.append((pid, name, "SUPERSEDED", "", "")); print(rows[-1], flush=True)
+            meta0["check_result"] = {"cmd": f"./check {pid} quick", "repo_head": head, "patch": None, "result": "SUPERSEDED", "first_reported_by": "", "failure_kind": ""}
+            json.dump(meta0, open(os.path.join(d, "meta.json"), "w"), indent=1)
+            continue
         applied = None
         for cand in ("patch.head.diff", "patch.ported.diff", "patch.diff"):
             p = os.path.join(d, cand)
